@@ -468,11 +468,50 @@ def _ancestors(n):
     return list(ancestors(n))
 
 
+def r13f(ctx):
+    """The name that insert_style returns is read from the style as it was inserted.
+
+    The helpers that place a style may still change its identity — a default style loses `style:name` and is re-tagged, an unnamed automatic
+    style receives its generated name.  The caller is promised "a name under which the lookup finds exactly that style", so the returned
+    value must be read from the element after the last of these changes (after the append), not from a local computed on entry.
+    """
+    repo = ctx.repo
+    ctx.rule("R13f", "insert_style returns the name read from the inserted element, after the append", floor=1)
+    f = repo.func("Document.insert_style")
+    cfg = cfg_of(f)
+    apps = [n for n in walk_no_nested(f.node) if isinstance(n, ast.Call) and call_name(n) == "append" and isinstance(n.func, ast.Attribute)]
+    rets = [r for r in walk_no_nested(f.node) if isinstance(r, ast.Return) and r.value is not None]
+    if not apps or not rets:
+        raise AnalysisError("R13f: insert_style no longer appends and returns")
+    last_app = max(apps, key=lambda c: c.lineno)
+    elem = last_app.args[0].id if last_app.args and isinstance(last_app.args[0], ast.Name) else None
+
+    def reads_element(e) -> bool:
+        return isinstance(e, ast.Call) and call_name(e) == "_pseudo_style_attribute" and e.args and isinstance(e.args[0], ast.Name) and e.args[0].id == elem \
+            and len(e.args) > 1 and repo.fold(e.args[1], f.module) == "name"
+
+    for r in rets:
+        if not cfg.dominates(node_of(cfg, last_app), node_of(cfg, r)):
+            continue  # an early return before anything was inserted (error paths raise)
+        v = r.value
+        ok = reads_element(v)
+        if not ok and isinstance(v, ast.Name):
+            defs = [a for a in walk_no_nested(f.node) if isinstance(a, ast.Assign) and any(isinstance(t, ast.Name) and t.id == v.id for t in a.targets)]
+            ok = bool(defs) and all(reads_element(a.value) and cfg.dominates(node_of(cfg, last_app), node_of(cfg, a)) for a in defs)
+        ctx.instance("R13f", f"{f.file}:{f.ident}", f"return {norm(v, 50)}: " + ("the name of the element as inserted" if ok else "may be a name computed before the style was placed"),
+                     ok=ok, nontrivial=True, line=r.lineno)
+        if not ok:
+            ctx.report("R13f", f, r, f"return {norm(v, 60)}",
+                       "insert_style returns a value that can come from before the placement helpers ran: a default style loses its name and an unnamed automatic style gets a "
+                       "generated one there, so the returned name is not one under which get_style finds the inserted style")
+
+
 def run(ctx):
     r13ab(ctx)
     r13c(ctx)
     r13d(ctx)
     r13e(ctx)
+    r13f(ctx)
 
 
 from ..selftest import Seed, unparse_seed  # noqa: E402
@@ -480,6 +519,8 @@ from ..selftest import Seed, unparse_seed  # noqa: E402
 _DOC = "src/odfdo/document.py"
 _ST = "src/odfdo/styles.py"
 SEEDS = [
+    Seed("insert_style returns the name computed on entry", "fault", _DOC,
+         '        return self._pseudo_style_attribute(style_element, "name")\n\n    def get_styled_elements', '        return name or self._pseudo_style_attribute(style_element, "name")\n\n    def get_styled_elements', "R13f"),
     Seed("merge looks for the replaced style in the destination container only", "fault", _DOC, '            duplicate = part.get_style(family, stylename)\n            if duplicate is not None:\n                duplicate.delete()\n', '            duplicate = dest.get_style(family, stylename)\n            if duplicate is not None:\n                duplicate.delete()\n', "R13c"),
     Seed("merge looks for the replaced style in the whole document", "fault", _DOC, '            duplicate = part.get_style(family, stylename)\n            if duplicate is not None:\n                duplicate.delete()\n', '            duplicate = self.get_style(family, stylename)\n            if duplicate is not None:\n                duplicate.delete()\n', "R13c"),
     Seed("merge: replaced style renamed", "neutral", _DOC, '            duplicate = part.get_style(family, stylename)\n            if duplicate is not None:\n                duplicate.delete()\n', '            previous = part.get_style(family, stylename)\n            if previous is not None:\n                previous.delete()\n'),
